@@ -5,6 +5,8 @@ import (
 	"strings"
 
 	errors "golang.org/x/xerrors"
+
+	"github.com/makiuchi-d/gozxing/verifhook"
 )
 
 type BitMatrix struct {
@@ -107,6 +109,7 @@ func ParseStringToBitMatrix(stringRepresentation, setString, unsetString string)
 
 func (b *BitMatrix) Get(x, y int) bool {
 	if x < 0 || x >= b.width || y < 0 || y >= b.height {
+		verifhook.OOBRead(x, y, b.width, b.height)
 		return false
 	}
 	offset := (y * b.rowSize) + (x / 32)
